@@ -46,6 +46,7 @@ K_BND = 'TruncatedGaussian.fit:bounds-remembered-across-refit'
 K_KDE = 'GaussianKDE.fit:sample-size-cached-resamples-on-refit'
 K_TAU = 'Tree.get_tau_matrix:reads-unwritten-cells'
 K_LIK = 'Edge.get_likelihood:reads-unwritten-cells'
+K_TAUSER = 'Tree.get_tau_matrix:unwritten-cells-serialised'
 K_CLONE = 'get_instance:undecorated-init-loses-options'
 
 OVR = ('cumulative_distribution', 'percent_point', 'probability_density', 'sample')
@@ -1100,8 +1101,12 @@ def check_get_instance(ctx, lean):
 
 # ------------------------------------------------------------------------- uninitialised memory
 def vine_summary(v):
+    """(what the fit decided and uses: structure, families, thetas, edge taus, U; what it merely stores:
+    the per-tree tau matrices)."""
     d = _quiet(v.to_dict)
-    return canon({'trees': d.get('trees'), 'tau_mat': d.get('tau_mat')})
+    used = [[{k: e[k] for k in e if k != 'parents'} for e in t['edges']] for t in d.get('trees', [])]
+    stored = [t.get('tau_matrix') for t in d.get('trees', [])]
+    return canon({'edges': used, 'tau_mat': d.get('tau_mat')}), canon(stored)
 
 
 def vine_edge_taus(v):
@@ -1123,11 +1128,17 @@ def check_uninit(ctx, configs):
                     _quiet(fit_pinned, v, X, 1)
                     fits.append((v, vine_summary(v), vine_edge_taus(v)))
                 except Exception as e:  # noqa
-                    fits.append((None, 'raised ' + type(e).__name__, None))
+                    fits.append((None, ('raised ' + type(e).__name__, None), None))
         checked += 1
         ctx.case(('uninit-fit', vt, k, n, trunc, seed))
         ctx.count(f'uninit:{vt}:{k}cols')
-        if fits[0][1] != fits[1][1]:
+        if fits[0][1][0] == fits[1][1][0] and fits[0][1][1] != fits[1][1][1]:
+            found[K_TAUSER] = found.get(K_TAUSER, 0) + 1
+            ctx.fail_input('VineCopula.to_dict', {'vine_type': vt, 'columns': k, 'rows': n, 'data_seed': seed, 'truncated': 3},
+                           'trees[k].tau_matrix in to_dict() (k >= 1) contains cells that get_tau_matrix never wrote (e.g. the '
+                           'diagonal): they take the value of the sentinel; structure, families, thetas and edge taus are unaffected',
+                           'no result depends on uninitialised memory', K_TAUSER)
+        if fits[0][1][0] != fits[1][1][0]:
             found[K_TAU] += 1
             ctx.fail_input('VineCopula.fit', {'vine_type': vt, 'columns': k, 'rows': n, 'data_seed': seed, 'truncated': 3},
                            {'edge_tau_with_sentinel_1e300': fits[0][2], 'edge_tau_with_sentinel_nan': fits[1][2]},
@@ -1203,7 +1214,7 @@ def replay(ctx, payload):
         import copulas.univariate as U
         cls = getattr(U, inp['class'])
         refit_oracle(ctx, cls, inp.get('ctor_raw', {}), inp['history'], inp['seed0'])
-    elif cls_key in (K_TAU, K_LIK):
+    elif cls_key in (K_TAU, K_LIK, K_TAUSER):
         check_uninit(ctx, [(inp['vine_type'], inp['columns'], inp['rows'], 3, inp['data_seed'])])
     else:
         class _NoLean:
